@@ -34,7 +34,7 @@ CLAIMS = {
    "DESIGN.md section 4 C19, E8"),
  "C13": ("other",
    "def-use and dominance analysis on go/ssa of both sides of the status file: constants with the polarity of the writer's bool parameter vs. the reader's switch cases and what each case feeds into the device-policy variable; must-pass (post-dominance) search in do-approve",
-   "Decides the structural core: writer and reader agree on every status constant and its meaning (success accepted with its policy, failure not accepted, UPTODATE accepted, DIFF lists, sticky DIFF with the approved-since exception, compare consulted only when later than the accepted approve); the reader cannot abort and lists the zero value; all parts (code, ipv6, raw, bz2) are compared; in do-approve every path after the session updates the status and writes END:, and FAILED/return 1 derive exactly from the session result; the recorded policy is a parameter of the status writer and derives from the same resolution of `current` as the code file handed to the session; both sides of the code comparison are whole file contents. Not decided: sufficiency of the two-slot encoding over all histories.",
+   "Decides the structural core: writer and reader agree on every status constant and its meaning (success accepted with its policy, failure not accepted, UPTODATE accepted, DIFF lists, sticky DIFF with the approved-since exception, compare consulted only when later than the accepted approve); the reader cannot abort and lists the zero value; all parts (code, ipv6, raw, bz2) are compared; in do-approve every path after the session updates the status and writes END:, and FAILED/return 1 derive exactly from the session result; the recorded policy is a parameter of the status writer and derives from the same resolution of `current` as the code file handed to the session; both sides of the code comparison are whole file contents; the log-line prefixes do-approve parses are produced and the info channel cannot be switched off from do-approve. Not decided: sufficiency of the two-slot encoding over all histories.",
    "Trusted: go/ssa; shared struct type makes field names agree. Histories, clocks and file removal are runtime matters.",
    "DESIGN.md section 4 C13"),
  "C09": ("other",
@@ -59,12 +59,12 @@ CLAIMS = {
    "DESIGN.md section 4 C03-C05"),
  "C05": ("other",
    "field-access sets on go/ssa incl. trigger sub-fields of the struct-valued change (R-HC), R-FC for package linux; guard-set table for the route decisions; loop-carried-state (header phi) audit of the parsers",
-   "Only the structural part is decided: every sub-field of the change that ApplyCommands acts on (routes, iptables) is read by HasChanges and ShowChanges — necessary for 'no change is reported only for an equivalent device' and invisible to drc FILE1 FILE2 tests; MergeSpoc and diffConfig handle both iptables and routes; the route delete/replace decisions keep their audited conditions; in the iptables/route parsers no unaudited variable keeps its value from one loop iteration to the next (a per-option flag without reset changes what is compared); no Trim cutset is a suffix mistaken for a character set. Normaliser equivalence and route replacement semantics are NOT decided.",
+   "Only the structural part is decided: every sub-field of the change that ApplyCommands acts on (routes, iptables) is read by HasChanges and ShowChanges — necessary for 'no change is reported only for an equivalent device' and invisible to drc FILE1 FILE2 tests; MergeSpoc and diffConfig handle both iptables and routes; the route delete/replace decisions keep their audited conditions; in the iptables/route parsers no unaudited variable keeps its value from one loop iteration to the next (a per-option flag without reset changes what is compared); no Trim cutset is a suffix mistaken for a character set; the option maps of two rules are compared behind a symmetric key-set check; no effectful call is skipped by short-circuit evaluation on a sibling call. Normaliser equivalence and route replacement semantics are NOT decided.",
    "Trusted: go/ssa, call graph.",
    "DESIGN.md section 4 C03-C05"),
  "C07": ("other",
    "guard-set analysis (all controlling conditions of a site, normalised, from go/ssa dominance) compared with an audited table; inter-procedural string-pattern evaluation of PAN-OS commands; guard check of the NSX load filter",
-   "Decides named necessary conditions of the frame property: NSX objects enter the model only under HasPrefix(id, \"Netspoc\"); every PAN-OS command's xpath is rooted at /config/devices/entry[..]/vsys/entry[..] of the targeted vsys; the Cisco protection sites (markNeeded for unknown interfaces / unmanaged VRFs, deletion-candidate test, the walk protecting everything an unmanaged object references, deletion only when unreferenced, no change for aaa-server / ldap attribute-map / interface, routes deleted only where the target has routes) are controlled by exactly their audited conditions, and every store into the marks needed / ready / toDelete of package cisco lies at an audited site. The whole-device frame condition for arbitrary unmanaged content is NOT decided.",
+   "Decides named necessary conditions of the frame property: NSX objects enter the model only under HasPrefix(id, \"Netspoc\"); every PAN-OS command's xpath is rooted at /config/devices/entry[..]/vsys/entry[..] of the targeted vsys; the Cisco protection sites (markNeeded for unknown interfaces / unmanaged VRFs, deletion-candidate test, the walk protecting everything an unmanaged object references, deletion only when unreferenced, no change for aaa-server / ldap attribute-map / interface, routes deleted only where the target has routes) are controlled by exactly their audited conditions, and every store into the marks needed / ready / toDelete of package cisco lies at an audited site; maps from a name to its commands are filled by accumulation (one genuine defect found by this rule was repaired, fix: e648ceb). The whole-device frame condition for arbitrary unmanaged content is NOT decided.",
    "Trusted: go/ssa, call graph, the audited guard sets of tables/guards.tsv (each row with its reason).",
    "DESIGN.md section 4 C07"),
  "C08": ("other",
